@@ -16,7 +16,10 @@ import Jap.Lemmas.TypingB64
 import Jap.Lemmas.TypingUuid
 import Jap.Lemmas.TypingText
 import Jap.Lemmas.TypingComplex
+import Jap.Lemmas.TypingReg
+import Jap.Lemmas.TypingDec
 import Jap.Gen.Registered
+import Jap.Gen.TypingSrc
 
 namespace Jap.Props.C20
 open Jap.Typing
@@ -511,5 +514,618 @@ theorem C20_decimal_float_lossy :
 
 /-- … while decimals that are doubles survive -/
 example : decimalRoundTrip .float (mkRat 1 2) = .fin (mkRat 1 2) := by decide +kernel
+
+/-! ## the type registry: same key = same class, and the class validates what its creator stated -/
+
+/-- the whole outcome of `T(v)` does not depend on the order in which the restrictions were given -/
+theorem C20_num_perm (b : Base) (rs₁ rs₂ : List Restr) (j : Join) (v : PyVal) (p : rs₁.Perm rs₂) :
+    validateNum b rs₁ j v = validateNum b rs₂ j v :=
+  validateNum_perm p b j v
+
+/-- two requests that share a register key `(tuple(sorted(restrictions)), base, join)` state the same predicate -/
+theorem C20_key_sound (b b' : Base) (rs rs' : List Restr) (j j' : Join) (v : PyVal)
+    (h : numKey b rs j = numKey b' rs' j') : validateNum b rs j v = validateNum b' rs' j' v := by
+  obtain ⟨rfl, rfl, p⟩ := numKey_eq h
+  exact validateNum_perm p b j v
+
+/-- `restricted_number_type` returns (freshly or from the registry) a class that validates exactly the
+restrictions stated in THIS call, and keeps the registry well-filed -/
+theorem C20_create_sound (r r' : TReg) (name : String) (b : Base) (rs : List Restr) (j : Join) (c : NumCls)
+    (hr : r.OK) (h : createNum r name b rs j = .ok (r', c)) :
+    r'.OK ∧ ∀ v, c.call v = validateNum b rs j v := by
+  rcases (createNum_ok_iff r r' name b rs j c).mp h with ⟨hf, _, rfl⟩ | ⟨_, _, rfl, rfl⟩
+  · refine ⟨hr, fun v => ?_⟩
+    have hk := hr _ (TReg.find_some hf)
+    exact (C20_key_sound _ _ _ _ _ _ v hk).symm
+  · refine ⟨?_, fun v => rfl⟩
+    intro e he
+    simp only [List.mem_append, List.mem_singleton] at he
+    rcases he with he | rfl
+    · exact hr e he
+    · rfl
+
+/-- asking again under the same name with a key-equal restriction list gives the very same class and leaves the
+registry as it is ("two types with the same name/restrictions are the same class") -/
+theorem C20_create_same_class (r r' : TReg) (name : String) (b : Base) (rs rs' : List Restr) (j : Join) (c : NumCls)
+    (h : createNum r name b rs j = .ok (r', c)) (hk : numKey b rs' j = numKey b rs j) :
+    createNum r' name b rs' j = .ok (r', c) ∧ c.name = name := by
+  rcases (createNum_ok_iff r r' name b rs j c).mp h with ⟨hf, hn, rfl⟩ | ⟨hf, _, rfl, rfl⟩
+  · exact ⟨(createNum_ok_iff _ _ _ _ _ _ _).mpr (Or.inl ⟨hk ▸ hf, hn, rfl⟩), hn⟩
+  · refine ⟨(createNum_ok_iff _ _ _ _ _ _ _).mpr (Or.inl ⟨?_, rfl, rfl⟩), rfl⟩
+    rw [hk]
+    exact TReg.find_append_new _ hf
+
+/-- … and under another name it is refused (`ValueError`: same type already registered with a different name) -/
+theorem C20_create_other_name (r r' : TReg) (name name' : String) (b : Base) (rs rs' : List Restr) (j : Join) (c : NumCls)
+    (h : createNum r name b rs j = .ok (r', c)) (hk : numKey b rs' j = numKey b rs j) (hn : name' ≠ name) :
+    createNum r' name' b rs' j = .error .value := by
+  obtain ⟨h2, hc⟩ := C20_create_same_class r r' name b rs rs' j c h hk
+  have hf : r'.find (numKey b rs' j) = some c := by
+    rcases (createNum_ok_iff _ _ _ _ _ _ _).mp h2 with ⟨hf, _, _⟩ | ⟨_, _, he, _⟩
+    · exact hf
+    · exact absurd (congrArg TReg.next he) (by simp)
+  unfold createNum
+  have : c.name ≠ name' := by rw [hc]; exact Ne.symm hn
+  simp [hf, this]
+
+/-- creating a type never changes a class that is already registered (any key) -/
+theorem C20_create_frame (r r' : TReg) (name : String) (b : Base) (rs : List Restr) (j : Join) (c c0 : NumCls) (k : NumKey)
+    (h : createNum r name b rs j = .ok (r', c)) (h0 : r.find k = some c0) : r'.find k = some c0 := by
+  rcases (createNum_ok_iff r r' name b rs j c).mp h with ⟨_, _, rfl⟩ | ⟨_, _, rfl, rfl⟩
+  · exact h0
+  · exact TReg.find_append _ h0
+
+/-- the caller's list is read once: whatever the heap cell holds later, the class keeps validating the restrictions
+that were in the cell at creation (model statement of "immune to later mutation of the caller's list"; the tie
+`C20_src_restricted_number_type_tie` pins the comprehension that makes the private copy) -/
+theorem C20_create_ignores_later_mutation (heap heap' : Nat → List Restr) (r r' : TReg) (name : String) (b : Base)
+    (a : Nat) (j : Join) (c : NumCls) (hr : r.OK) (h : createNumFrom heap r name b a j = .ok (r', c)) (v : PyVal) :
+    c.call v = validateNum b (heap a) j v ∧
+      (∀ k c0, r'.find k = some c0 → ∀ r'' c', createNumFrom heap' r' name b a j = .ok (r'', c') → r''.find k = some c0) := by
+  refine ⟨(C20_create_sound r r' name b (heap a) j c hr h).2 v, ?_⟩
+  intro k c0 h0 r'' c' h'
+  exact C20_create_frame r' r'' name b (heap' a) j c' c0 k h' h0
+
+def reg0 : TReg := ⟨[], ["PositiveInt", "register_type"], 0⟩
+def gt0 : Restr := (.gt, .fin 0)
+def lt9 : Restr := (.lt, .fin 9)
+
+/-- non-vacuity: creation, the same class for a permuted list, another name refused, a name that clashes with a
+global of the module refused, and the hypothesis `r.OK` holds for the empty registry -/
+example : reg0.OK := by intro e he; cases he
+example : ∃ r' c, createNum reg0 "A" .int [gt0, lt9] .and = .ok (r', c) ∧ c.id = 0 ∧
+    createNum r' "A" .int [lt9, gt0] .and = .ok (r', c) ∧
+    createNum r' "B" .int [lt9, gt0] .and = .error .value ∧
+    (∃ r'' c', createNum r' "B" .int [lt9, gt0] .or = .ok (r'', c') ∧ c'.id = 1) ∧
+    createNum r' "register_type" .int [gt0] .and = .error .value := by
+  refine ⟨_, _, rfl, rfl, by decide +kernel, by decide +kernel, ⟨_, _, rfl, rfl⟩, by decide +kernel⟩
+example : sortR [(.gt, .fin 1), (.lt, .fin 9), (.gt, .fin 0), (.ne, .inf true)] = [(.ne, .inf true), (.lt, .fin 9), (.gt, .fin 0), (.gt, .fin 1)] := by
+  decide +kernel
+example : autoName .int [(.gt, 0), (.lt, 10)] .and = "int_gt0_and_lt10" ∧ autoName .float [(.ge, -2)] .or = "float_ge-2" ∧
+    exprText [(.gt, 0), (.lt, 10)] .or = "v>0 or v<10" := by decide +kernel
+
+/-- the rank used by `sortR` is Python's order of the operator symbols -/
+theorem C20_sort_rank_tie : ∀ a ∈ Op.all, ∀ b ∈ Op.all, (decide (a.symbol < b.symbol)) = decide (a.sortRank < b.sortRank) := by
+  decide +kernel
+
+/-! ### restricted strings: the register key is the pattern TEXT (finding `C20-str-key-ignores-flags`)
+
+Full statement, not satisfied by the code:
+  `createStr r name p f = .ok (r', c) → c.pattern = p ∧ c.flags = f`
+(the class returned validates with the pattern object of this call). -/
+
+/-- witness of the negation: the second call asks for `re.compile("^a$", re.IGNORECASE)` (flags 34) under the same
+name and gets the class of the first call, whose pattern object has no IGNORECASE (flags 32) -/
+theorem C20_str_key_ignores_flags :
+    ∃ r₁ c₁ c₂, createStr ⟨[], [], 0⟩ "T" "^a$" 32 = .ok (r₁, c₁) ∧ createStr r₁ "T" "^a$" 34 = .ok (r₁, c₂) ∧
+      c₂ = c₁ ∧ c₂.flags ≠ 34 := by
+  exact ⟨_, _, _, rfl, by decide +kernel, rfl, by decide⟩
+
+/-- partial: a pattern text that is not registered yet gives a class with the pattern object of this call -/
+theorem C20_create_str_fresh (r r' : SReg) (name pattern : String) (flags : Nat) (c : StrCls)
+    (hf : r.find ("matching " ++ pattern) = none) (h : createStr r name pattern flags = .ok (r', c)) :
+    c.pattern = pattern ∧ c.flags = flags ∧ c.name = name := by
+  unfold createStr at h
+  simp only [hf] at h
+  split at h
+  · cases h
+  · cases h; exact ⟨rfl, rfl, rfl⟩
+
+example : (⟨[], [], 0⟩ : SReg).find ("matching " ++ "^a$") = none := by decide +kernel
+
+/-! ## `register_type` -/
+
+theorem getRegistered_snd (st : HReg) (t : Nat) : (getRegistered st t).2 = (getRegistered st t).1.handlerOf t := by
+  unfold getRegistered
+  cases (assocGet st.handlers t).isNone with
+  | false => rfl
+  | true =>
+    simp only [↓reduceIte]
+    cases assocGet st.pending t with
+    | none => rfl
+    | some p => rfl
+
+theorem storeH_lookup (s : HReg) (h : HandlerId) (ukey : Option (Nat × Bool)) : (storeH s h ukey).handlerOf h.cls = some h := by
+  cases ukey with
+  | none => exact assocGet_assocSet_same _ _ _
+  | some p => exact assocGet_assocSet_same _ _ _
+
+/-- after a `register_type` that did not raise, the class has a handler that is `==` the requested one
+(`RegisteredType.__eq__`: class, serializer, deserializer) -/
+theorem C20_register_lookup (st st' : HReg) (h : HandlerId) (fail : Bool) (ukey : Option (Nat × Bool))
+    (hr : registerType st h fail ukey = (st', none)) : ∃ h', st'.handlerOf h.cls = some h' ∧ h.eq3 h' = true := by
+  have heq : h.eq3 h = true := by simp [HandlerId.eq3]
+  unfold registerType registerWith at hr
+  split at hr
+  · cases hg : (getRegistered st h.cls).2 with
+    | some old =>
+      simp only [hg] at hr
+      split at hr
+      · rename_i he
+        cases hr
+        exact ⟨old, by rw [← getRegistered_snd]; exact hg, he⟩
+      · cases hr
+    | none =>
+      simp only [hg] at hr
+      cases hr
+      exact ⟨h, storeH_lookup _ _ _, heq⟩
+  · cases hr
+    exact ⟨h, storeH_lookup _ _ _, heq⟩
+
+theorem getRegistered_of_handler (st : HReg) (t : Nat) (old : HandlerId) (ho : assocGet st.handlers t = some old) :
+    getRegistered st t = (st, some old) := by
+  unfold getRegistered
+  simp [ho, HReg.handlerOf]
+
+/-- with `fail_already_registered` in force and no uniqueness key, a class that has a handler which differs in
+serializer or deserializer cannot be re-registered: `ValueError`, nothing changes -/
+theorem C20_register_conflict (st : HReg) (h old : HandlerId) (hg : st.globalFail = none)
+    (ho : assocGet st.handlers h.cls = some old) (hne : h.eq3 old = false) :
+    registerType st h true none = (st, some .value) := by
+  unfold registerType registerWith
+  simp [hg, getRegistered_of_handler st h.cls old ho, hne, noKey]
+
+/-- … and registering an `==` handler again is a no-op -/
+theorem C20_register_again_noop (st : HReg) (h old : HandlerId) (hg : st.globalFail = none)
+    (ho : assocGet st.handlers h.cls = some old) (he : h.eq3 old = true) :
+    registerType st h true none = (st, none) := by
+  unfold registerType registerWith
+  simp [hg, getRegistered_of_handler st h.cls old ho, he, noKey]
+
+/-- while the module body runs (`_fail_already_registered = False`) the new handler simply replaces the old one,
+whatever the caller passed for `fail_already_registered` -/
+theorem C20_register_override (st : HReg) (h : HandlerId) (fail : Bool) (ukey : Option (Nat × Bool))
+    (hg : st.globalFail = some false) : registerType st h fail ukey = (storeH st h ukey, none) ∧
+      (storeH st h ukey).handlerOf h.cls = some h := by
+  unfold registerType registerWith
+  simp [hg, storeH_lookup]
+
+def hreg0 : HReg := ⟨[(1, ⟨1, 10, 11, 0, 0⟩)], [], [(2, ⟨⟨2, 20, 21, 0, 0⟩, true, none⟩)], none⟩
+
+/-- non-vacuity: first use of a pending type registers it; a second registration with another serializer is refused,
+with another `type_check` only it is silently ignored (the `==` of handlers does not look at it) -/
+example : (getRegistered hreg0 2).2 = some ⟨2, 20, 21, 0, 0⟩ ∧ (getRegistered hreg0 2).1.pending = [] ∧
+    registerType hreg0 ⟨1, 12, 11, 0, 0⟩ true none = (hreg0, some .value) ∧
+    registerType hreg0 ⟨1, 10, 11, 5, 7⟩ true none = (hreg0, none) ∧
+    (registerType hreg0 ⟨2, 99, 21, 0, 0⟩ true none).2 = some .value ∧
+    (registerType hreg0 ⟨2, 99, 21, 0, 0⟩ true none).1.handlerOf 2 = some ⟨2, 20, 21, 0, 0⟩ ∧
+    (registerType hreg0 ⟨1, 12, 11, 0, 0⟩ false none).1.handlerOf 1 = some ⟨1, 12, 11, 0, 0⟩ := by
+  refine ⟨?_, ?_, ?_, ?_, ?_, ?_, ?_⟩ <;> decide +kernel
+
+/-! ## the registered-type branch of `adapt_typehints`, for ANY serializer / deserializer pair -/
+
+/-- if the deserializer inverts the serializer on the instances, basic values are not instances
+(`type_check`), and the channel (config text or command-line word) hands the basic value back unchanged, then
+value → dump → parse returns the value, as an instance -/
+theorem C20_registered_rt {α β : Type} (h : Handler α β) (chan : β → β) (a : α)
+    (hinv : h.deser (.basic (h.ser (.inst a))) = .ok a)
+    (hb : ∀ b, h.isType (.basic b) = false)
+    (hch : chan (h.ser (.inst a)) = h.ser (.inst a)) :
+    regRoundTrip h chan a = .ok (.inst a) := by
+  simp [regRoundTrip, adaptReg, hch, hb, Handler.deserializer, hinv]
+
+/-- parsing a parsed value again changes nothing (instances pass `type_check`) -/
+theorem C20_registered_parse_idem {α β : Type} (h : Handler α β) (v w : RVal α β)
+    (hi : ∀ a, h.isType (.inst a) = true) (hp : adaptReg h false v = .ok w) (hw : ∃ a, w = .inst a) :
+    adaptReg h false w = .ok w := by
+  obtain ⟨a, rfl⟩ := hw
+  simp [adaptReg, hi]
+
+/-- the parser reports `ValueError` exactly when the value is not an instance and the deserializer raised one of
+its declared exceptions; other exceptions pass through -/
+theorem C20_registered_parse_error {α β : Type} (h : Handler α β) (v : RVal α β) :
+    (adaptReg h false v = .error .valueError ↔ h.isType v = false ∧ h.deser v = .error .listed) ∧
+    (adaptReg h false v = .error .propagated ↔ h.isType v = false ∧ h.deser v = .error .unlisted) := by
+  unfold adaptReg Handler.deserializer
+  cases ht : h.isType v <;> cases hd : h.deser v with
+  | ok a => simp
+  | error e => cases e <;> simp
+
+/-- the hypothesis on `type_check` is needed: a handler whose `type_check` also accepts basic values gets the basic
+value back, not an instance -/
+example : regRoundTrip (⟨fun _ => 7, fun _ => .ok 1, fun _ => true⟩ : Handler Nat Nat) id 1 = .ok (.basic 7) := by decide
+
+/-- a handler built from a codec pair of the model: `str`-like serializer, deserializer errors are declared ones,
+default `type_check` -/
+def codecHandler {α : Type} (ser : α → List Char) (deser : List Char → Except Err α) : Handler α (List Char) where
+  ser := fun v => match v with
+    | .inst a => ser a
+    | .basic s => s
+  deser := fun v => match v with
+    | .basic s => match deser s with
+      | .ok a => .ok a
+      | .error _ => .error .listed
+    | .inst _ => .error .listed
+  isType := fun v => match v with
+    | .inst _ => true
+    | .basic _ => false
+
+/-- the built-in codecs of the model through the adapter branch: every range, normalised timedelta, byte string and
+UUID comes back as an instance when the channel preserves the text -/
+theorem C20_builtin_rt_through_adapter (chan : List Char → List Char) (hch : ∀ s, chan s = s) :
+    (∀ r : Range, r.step ≠ 0 → regRoundTrip (codecHandler rangeSer rangeDeser) chan r = .ok (.inst r)) ∧
+    (∀ t : TD, t.Normalised → regRoundTrip (codecHandler tdStr tdDeser) chan t = .ok (.inst t)) ∧
+    (∀ bs : List Nat, (∀ b ∈ bs, b < 256) → regRoundTrip (codecHandler b64encode b64decode) chan bs = .ok (.inst bs)) ∧
+    (∀ n : Nat, n < 2 ^ 128 → regRoundTrip (codecHandler uuidStr uuidDeser) chan n = .ok (.inst n)) := by
+  refine ⟨fun r hr => ?_, fun t ht => ?_, fun bs hbs => ?_, fun n hn => ?_⟩
+  · exact C20_registered_rt _ chan r (by simp [codecHandler, C20_range_rt r hr]) (fun _ => rfl) (hch _)
+  · exact C20_registered_rt _ chan t (by simp [codecHandler, C20_td_rt t ht]) (fun _ => rfl) (hch _)
+  · exact C20_registered_rt _ chan bs (by simp [codecHandler, C20_bytes_rt bs hbs]) (fun _ => rfl) (hch _)
+  · exact C20_registered_rt _ chan n (by simp [codecHandler, C20_uuid_rt n hn]) (fun _ => rfl) (hch _)
+
+/-- the hypotheses of `C20_registered_rt` are satisfiable (identity channel, the range codec) -/
+example : regRoundTrip (codecHandler rangeSer rangeDeser) id ⟨5, 0, -2⟩ = .ok (.inst ⟨5, 0, -2⟩) := by decide +kernel
+/-- a text that is no range: the adapter's `ValueError` -/
+example : adaptReg (codecHandler rangeSer rangeDeser) false (.basic "range(1.5)".toList) = .error .valueError := by decide +kernel
+
+/-! ### `Decimal` through `float`: which decimals survive -/
+
+set_option exponentiation.threshold 2000 in
+/-- a decimal survives the registered `float` serializer only if it is a dyadic rational on the grid of the doubles:
+its reduced denominator divides 2^1074 -/
+theorem C20_decimal_float_survivors_dyadic (d : Rat) (h : decimalRoundTrip .float d = .fin d) : d.den ∣ 2 ^ 1074 :=
+  roundDouble_den h
+
+set_option exponentiation.threshold 2000 in
+/-- hence EVERY decimal whose reduced denominator contains a factor 5 (0.1, 0.3, 1.10, 3.14, … — all decimals that
+are no finite binary fraction) comes back changed -/
+theorem C20_decimal_float_lossy_class (d : Rat) (h5 : 5 ∣ d.den) : decimalRoundTrip .float d ≠ .fin d := by
+  intro h
+  have h2 : 5 ∣ 2 ^ 1074 := Nat.dvd_trans h5 (C20_decimal_float_survivors_dyadic d h)
+  revert h2
+  decide +kernel
+
+/-- the condition is not sufficient: 53 significant bits and the exponent range bound the survivors too -/
+theorem C20_decimal_float_more_witnesses :
+    decimalRoundTrip .float ((2 ^ 53 + 1 : Nat) : Rat) = .fin ((2 ^ 53 : Nat) : Rat) ∧
+    decimalRoundTrip .float (mkRat 1 (2 ^ 1075)) = .fin 0 ∧
+    decimalRoundTrip .float ((10 ^ 400 : Nat) : Rat) = .inf false ∧
+    decimalRoundTrip .float (mkRat 1 (2 ^ 1074)) = .fin (mkRat 1 (2 ^ 1074)) ∧
+    decimalRoundTrip .float ((2 ^ 53 : Nat) : Rat) = .fin ((2 ^ 53 : Nat) : Rat) ∧
+    decimalRoundTrip .float (mkRat (-9) 4) = .fin (mkRat (-9) 4) := by
+  refine ⟨?_, ?_, ?_, ?_, ?_, ?_⟩ <;> decide +kernel
+
+example : 5 ∣ (mkRat 1 10).den ∧ 5 ∣ (mkRat 314 100).den := by decide +kernel
+
+/-! ### predefined number types on the special floats and on the other input kinds -/
+
+/-- `nan`, `+inf`, `-inf` against the four predefined float types (the complete table) -/
+theorem C20_predefined_float_specials :
+    validateNum .float [(.gt, .fin 0)] .and (.float .nan) = .error .value ∧
+    validateNum .float [(.ge, .fin 0)] .and (.float .nan) = .error .value ∧
+    validateNum .float [(.ge, .fin 0), (.le, .fin 1)] .and (.float .nan) = .error .value ∧
+    validateNum .float [(.gt, .fin 0), (.lt, .fin 1)] .and (.float .nan) = .error .value ∧
+    validateNum .float [(.gt, .fin 0)] .and (.float (.inf false)) = .ok (.f (.inf false)) ∧
+    validateNum .float [(.ge, .fin 0)] .and (.float (.inf false)) = .ok (.f (.inf false)) ∧
+    validateNum .float [(.ge, .fin 0), (.le, .fin 1)] .and (.float (.inf false)) = .error .value ∧
+    validateNum .float [(.gt, .fin 0), (.lt, .fin 1)] .and (.float (.inf false)) = .error .value ∧
+    validateNum .float [(.gt, .fin 0)] .and (.float (.inf true)) = .error .value ∧
+    validateNum .float [(.ge, .fin 0)] .and (.float (.inf true)) = .error .value ∧
+    validateNum .float [(.ge, .fin 0), (.le, .fin 1)] .and (.float (.inf true)) = .error .value ∧
+    validateNum .float [(.gt, .fin 0), (.lt, .fin 1)] .and (.float (.inf true)) = .error .value := by
+  refine ⟨?_, ?_, ?_, ?_, ?_, ?_, ?_, ?_, ?_, ?_, ?_, ?_⟩ <;> decide +kernel
+
+/-- zero (the sign is not represented: `0.0` and `-0.0` compare equal to 0 in Python too), the smallest subnormal, the
+texts `"inf"`, `"nan"`, `"1e400"` (= inf), `"-0.0"`, a huge int, `True` -/
+theorem C20_predefined_boundaries :
+    validateNum .float [(.ge, .fin 0)] .and (.float (.fin 0)) = .ok (.f (.fin 0)) ∧
+    validateNum .float [(.gt, .fin 0)] .and (.float (.fin 0)) = .error .value ∧
+    validateNum .float [(.gt, .fin 0), (.lt, .fin 1)] .and (.float (.fin (mkRat 1 (2 ^ 1074)))) = .ok (.f (.fin (mkRat 1 (2 ^ 1074)))) ∧
+    validateNum .float [(.gt, .fin 0), (.lt, .fin 1)] .and (.str "1e-400".toList) = .error .value ∧
+    validateNum .float [(.gt, .fin 0)] .and (.str "inf".toList) = .ok (.f (.inf false)) ∧
+    validateNum .float [(.gt, .fin 0)] .and (.str "nan".toList) = .error .value ∧
+    validateNum .float [(.ge, .fin 0)] .and (.str "-0.0".toList) = .ok (.f (.fin 0)) ∧
+    validateNum .float [(.ge, .fin 0), (.le, .fin 1)] .and (.int 1) = .ok (.f (.fin 1)) ∧
+    validateNum .float [(.ge, .fin 0), (.le, .fin 1)] .and (.bool true) = .error .value ∧
+    validateNum .int [(.ge, .fin 0)] .and (.int (10 ^ 400)) = .ok (.i (10 ^ 400)) ∧
+    validateNum .int [(.ge, .fin 0)] .and (.float (.fin ((10 ^ 22 : Nat) : Rat))) = .ok (.i (10 ^ 22)) ∧
+    validateNum .int [(.ge, .fin 0)] .and (.float (.inf false)) = .error .value ∧
+    validateNum .int [(.ge, .fin 0)] .and (.str "0".toList) = .ok (.i 0) ∧
+    validateNum .int [(.ge, .fin 0)] .and (.str "0.0".toList) = .error .value ∧
+    validateNum .int [(.ge, .fin 0)] .and (.bool false) = .error .value := by
+  refine ⟨?_, ?_, ?_, ?_, ?_, ?_, ?_, ?_, ?_, ?_, ?_, ?_, ?_, ?_, ?_⟩ <;> decide +kernel
+
+/-- `NonNegativeInt(v)` succeeds iff `v` denotes an integer `n ≥ 0`, and returns it -/
+theorem C20_NonNegativeInt (v : PyVal) (x : BVal) :
+    validateNum .int [(.ge, .fin 0)] .and v = .ok x ↔ ∃ n : Int, asBase .int v = some (.i n) ∧ x = .i n ∧ 0 ≤ n := by
+  rw [validateNum_iff]
+  constructor
+  · rintro ⟨ha, hj⟩
+    have hx : ∃ n, x = .i n := by
+      have := C20_num_base_type .int [(.ge, .fin 0)] .and v x ((validateNum_iff _ _ _ _ _).mpr ⟨ha, hj⟩)
+      exact this
+    obtain ⟨n, rfl⟩ := hx
+    refine ⟨n, ha, rfl, ?_⟩
+    have := (cmp_fin .ge (n : Rat) 0).mp (hj (.ge, .fin 0) (by simp))
+    exact Rat.intCast_nonneg.mp this
+  · rintro ⟨n, ha, rfl, hn⟩
+    refine ⟨ha, ?_⟩
+    intro r hr
+    simp only [List.mem_singleton] at hr
+    subst hr
+    exact (cmp_fin .ge (n : Rat) 0).mpr (Rat.intCast_nonneg.mpr hn)
+
+/-- `join="or"` over the empty list rejects everything, `join="and"` over it accepts every number of the base type -/
+theorem C20_empty_restrictions (b : Base) (v : PyVal) (x : BVal) :
+    (validateNum b [] .or v ≠ .ok x) ∧ (validateNum b [] .and v = .ok x ↔ asBase b v = some x) := by
+  constructor
+  · intro h
+    obtain ⟨_, r, hr, _⟩ := (validateNum_iff b [] .or v x).mp h
+    cases hr
+  · rw [validateNum_iff]
+    simp [joinSat]
+
+example : validateNum .int [] .and (.int 3) = .ok (.i 3) ∧ validateNum .int [] .or (.int 3) = .error .value := by decide +kernel
+
+/-! ## the statements the model transcribes (regenerated from `typing.py` / `_typehints.py`)
+
+`Jap.Gen.TypingSrc` is regenerated from /repo on every run (harness/extractors/typing_src.py: one string per statement;
+docstrings, imports, annotations and the arguments of `raise` dropped).  Each theorem states the text the model was written
+against; an edit of any of these statements makes the theorem fail, i.e. breaks the tie and triggers the boosted
+failing-input search. -/
+
+/-- `extend_base_type` + `TypeCore.__new__` (validate, then cast with the base type; registry lookup by key, name check) as transcribed by `validateNum`/`validateStr` and the registry part of `createNum`/`createStr` -/
+theorem C20_src_extend_base_type_tie : Jap.Gen.TypingSrc.extendBaseType = [
+  "def extend_base_type(name, base_type, validation_fn, docstring=None, extra_attrs=None, register_key=None):",
+  "  if register_key in registered_types:",
+  "    registered_type = registered_types[register_key]",
+  "    if registered_type.__name__ != name:",
+  "      raise ValueError(...)",
+  "    return registered_type",
+  "  class TypeCore():",
+  "    _validation_fn = validation_fn",
+  "    _type = base_type",
+  "    def __new__(cls, v):",
+  "      cls._validation_fn(cls, v)",
+  "      return super().__new__(cls, cls._type(v))",
+  "  if extra_attrs is not None:",
+  "    for (key, value) in extra_attrs.items():",
+  "      setattr(TypeCore, key, value)",
+  "  created_type = type(name, (TypeCore, base_type), {'__doc__': docstring})",
+  "  add_type(created_type, register_key)",
+  "  return created_type"] := rfl
+
+/-- `restricted_number_type` + its `validation_fn` as transcribed by `numKey` (sorted restrictions), `NumCls.rs` (the comprehension makes a PRIVATE list: later mutation of the caller's list cannot reach the class), `validationFn`, `autoName`, `exprText` -/
+theorem C20_src_restricted_number_type_tie : Jap.Gen.TypingSrc.restrictedNumberType = [
+  "def restricted_number_type(name, base_type, restrictions, join='and', docstring=None):",
+  "  if base_type not in {int, float}:",
+  "    raise ValueError(...)",
+  "  if join not in {'or', 'and'}:",
+  "    raise ValueError(...)",
+  "  restrictions = [restrictions] if isinstance(restrictions, tuple) else restrictions",
+  "  if not isinstance(restrictions, list) or not all((isinstance(x, tuple) and len(x) == 2 for x in restrictions)) or (not all((x[0] in _operators2 and x[1] == base_type(x[1]) for x in restrictions))):",
+  "    raise ValueError(...)",
+  "  register_key = (tuple(sorted(restrictions)), base_type, join)",
+  "  restrictions = [(_operators2[x[0]], x[1]) for x in restrictions]",
+  "  expression = (' ' + join + ' ').join(['v' + _operators1[op] + str(ref) for op, ref in restrictions])",
+  "  if name is None:",
+  "    name = base_type.__name__",
+  "    for (num, (comparison, ref)) in enumerate(restrictions):",
+  "      name += '_' + join + '_' if num > 0 else '_'",
+  "      name += comparison.__name__ + str(ref).replace('.', '')",
+  "  extra_attrs = {'_restrictions': restrictions, '_expression': expression, '_join': join, '_type': base_type}",
+  "  def validation_fn(cls, v):",
+  "    if isinstance(v, bool):",
+  "      raise ValueError(...)",
+  "    if cls._type == int and isinstance(v, float) and (not float.is_integer(v)):",
+  "      raise ValueError(...)",
+  "    vv = cls._type(v)",
+  "    check = [comparison(vv, ref) for comparison, ref in cls._restrictions]",
+  "    if cls._join == 'and' and (not all(check)) or (cls._join == 'or' and (not any(check))):",
+  "      raise ValueError(...)",
+  "  return extend_base_type(name=name, base_type=base_type, validation_fn=validation_fn, register_key=register_key, docstring=docstring, extra_attrs=extra_attrs)"] := rfl
+
+/-- `restricted_string_type` + its `validation_fn` (`regex.match`; the key is the pattern text) as transcribed by `validateStr` / `createStr` -/
+theorem C20_src_restricted_string_type_tie : Jap.Gen.TypingSrc.restrictedStringType = [
+  "def restricted_string_type(name, regex, docstring=None):",
+  "  if isinstance(regex, str):",
+  "    regex = re.compile(regex)",
+  "  expression = 'matching ' + regex.pattern",
+  "  extra_attrs = {'_regex': regex, '_expression': expression, '_type': str}",
+  "  def validation_fn(cls, v):",
+  "    if not cls._regex.match(v):",
+  "      raise ValueError(...)",
+  "  return extend_base_type(name=name, base_type=str, validation_fn=validation_fn, register_key=(expression, str), docstring=docstring, extra_attrs=extra_attrs)"] := rfl
+
+/-- `RegisteredType` as transcribed by `HandlerId.eq3` (three attributes) and `Handler.deserializer` (declared exceptions become ValueError) -/
+theorem C20_src_registered_type_class_tie : Jap.Gen.TypingSrc.registeredTypeClass = [
+  "def __init__(self, type_class, serializer, deserializer, deserializer_exceptions, type_check):",
+  "  self.type_class = type_class",
+  "  self.serializer = serializer",
+  "  self.base_deserializer = type_class if deserializer is None else deserializer",
+  "  self.deserializer_exceptions = deserializer_exceptions",
+  "  self.type_check = type_check",
+  "def __eq__(self, other):",
+  "  return all((getattr(self, k) == getattr(other, k) for k in ['type_class', 'serializer', 'base_deserializer']))",
+  "def is_value_of_type(self, value):",
+  "  return self.type_check(value, self.type_class)",
+  "def deserializer(self, value):",
+  "  try:",
+  "    return self.base_deserializer(value)",
+  "  except self.deserializer_exceptions as ex:",
+  "    type_class_name = getattr(self.type_class, '__name__', str(self.type_class))",
+  "    ex2 = ValueError(f'Not of type {type_class_name}: {ex}')",
+  "    ex2.parent = ex",
+  "    raise ex2 from ex"] := rfl
+
+/-- `register_type` as transcribed by `registerWith` / `noKey` / `storeH` -/
+theorem C20_src_register_type_tie : Jap.Gen.TypingSrc.registerType = [
+  "def register_type(type_class, serializer=str, deserializer=None, deserializer_exceptions=(ValueError, TypeError, AttributeError), type_check=lambda v, t: v.__class__ == t, fail_already_registered=True, uniqueness_key=None):",
+  "  type_handler = RegisteredType(type_class, serializer, deserializer, deserializer_exceptions, type_check)",
+  "  fail_already_registered = globals().get('_fail_already_registered', fail_already_registered)",
+  "  if not uniqueness_key and fail_already_registered and get_registered_type(type_class):",
+  "    if type_handler == registered_type_handlers[type_class]:",
+  "      return",
+  "    raise ValueError(...)",
+  "  registered_type_handlers[type_class] = type_handler",
+  "  if uniqueness_key is not None:",
+  "    registered_types[uniqueness_key] = type_class"] := rfl
+
+/-- `register_type_on_first_use` as transcribed by `Pending` -/
+theorem C20_src_register_on_first_use_tie : Jap.Gen.TypingSrc.registerOnFirstUse = [
+  "def register_type_on_first_use(import_path, *args, **kwargs):",
+  "  registration_pending[import_path] = lambda: register_type(import_object(import_path), *args, **kwargs)"] := rfl
+
+/-- `get_registered_type` as transcribed by `getRegistered` (pop, run, suppress ValueError, look up) -/
+theorem C20_src_get_registered_type_tie : Jap.Gen.TypingSrc.getRegisteredType = [
+  "def get_registered_type(type_class):",
+  "  if type_class not in registered_type_handlers:",
+  "    with suppress(AttributeError, ValueError):",
+  "      import_path = get_import_path(type_class)",
+  "      if import_path in registration_pending:",
+  "        registration_pending.pop(import_path)()",
+  "  return registered_type_handlers.get(type_class)"] := rfl
+
+/-- `add_type` as transcribed by the name-clash test of `createNum` / `createStr` and the registration under the key -/
+theorem C20_src_add_type_tie : Jap.Gen.TypingSrc.addType = [
+  "def add_type(type_class, uniqueness_key, type_check=None):",
+  "  assert uniqueness_key not in registered_types",
+  "  if type_class.__name__ in globals():",
+  "    raise ValueError(...)",
+  "  globals()[type_class.__name__] = type_class",
+  "  kwargs = {'uniqueness_key': uniqueness_key}",
+  "  if type_check is not None:",
+  "    kwargs['type_check'] = type_check",
+  "  register_type(type_class, type_class._type, **kwargs)"] := rfl
+
+/-- `timedelta_deserializer` as transcribed by `tdDeser` -/
+theorem C20_src_timedelta_deserializer_tie : Jap.Gen.TypingSrc.timedeltaDeserializer = [
+  "def timedelta_deserializer(value):",
+  "  def raise_error():",
+  "    raise ValueError(...)",
+  "  if not isinstance(value, str):",
+  "    raise_error()",
+  "  pattern = '(?P<hours>\\\\d+):(?P<minutes>\\\\d+):(?P<seconds>\\\\d[\\\\.\\\\d+]*)'",
+  "  if 'day' in value:",
+  "    pattern = '(?P<days>[-\\\\d]+) day[s]*, ' + pattern",
+  "  match = re.match(pattern, value)",
+  "  if not match:",
+  "    raise_error()",
+  "  kwargs = {key: float(val) for key, val in match.groupdict().items()}",
+  "  return timedelta(**kwargs)"] := rfl
+
+/-- `bytes_serializer` as transcribed by `b64encode` -/
+theorem C20_src_bytes_serializer_tie : Jap.Gen.TypingSrc.bytesSerializer = [
+  "def bytes_serializer(value):",
+  "  return b64encode(value).decode()"] := rfl
+
+/-- `bytes_deserializer` as transcribed by `b64decode` (nothing but `b64decode`: no second notation) -/
+theorem C20_src_bytes_deserializer_tie : Jap.Gen.TypingSrc.bytesDeserializer = [
+  "def bytes_deserializer(value):",
+  "  return b64decode(value)"] := rfl
+
+/-- `bytearray_deserializer`: the same decoder -/
+theorem C20_src_bytearray_deserializer_tie : Jap.Gen.TypingSrc.bytearrayDeserializer = [
+  "def bytearray_deserializer(value):",
+  "  return bytearray(b64decode(value))"] := rfl
+
+/-- `range_serializer` as transcribed by `rangeSer` -/
+theorem C20_src_range_serializer_tie : Jap.Gen.TypingSrc.rangeSerializer = [
+  "def range_serializer(value):",
+  "  if value.step == 1:",
+  "    if value.start == 0:",
+  "      return f'range({value.stop})'",
+  "    return f'range({value.start}, {value.stop})'",
+  "  return f'range({value.start}, {value.stop}, {value.step})'"] := rfl
+
+/-- `range_deserializer` as transcribed by `rangeDeser` -/
+theorem C20_src_range_deserializer_tie : Jap.Gen.TypingSrc.rangeDeserializer = [
+  "def range_deserializer(value):",
+  "  value = value.strip()",
+  "  if value.startswith('range(') and value.endswith(')'):",
+  "    value = value[6:-1].replace(' ', '')",
+  "    match = re_range_stop.match(value)",
+  "    if match:",
+  "      return range(int(match[1]))",
+  "    match = re_range_start_stop.match(value)",
+  "    if match:",
+  "      return range(int(match[1]), int(match[2]))",
+  "    match = re_range_start_stop_step.match(value)",
+  "    if match:",
+  "      return range(int(match[1]), int(match[2]), int(match[3]))",
+  "  raise ValueError(...)"] := rfl
+
+/-- `SecretStr` as transcribed by `secretSer` (constant mask; the value is only reachable through `get_secret_value`) -/
+theorem C20_src_secret_str_tie : Jap.Gen.TypingSrc.secretStr = [
+  "def __init__(self, value):",
+  "  self._value = value",
+  "def __str__(self):",
+  "  return '**********'",
+  "def __len__(self):",
+  "  return len(self._value)",
+  "def __eq__(self, other):",
+  "  return isinstance(other, self.__class__) and self._value == other._value",
+  "def __hash__(self):",
+  "  return hash(self._value)",
+  "def get_secret_value(self):",
+  "  return self._value"] := rfl
+
+/-- the module-level statements that predefine and register types, in source order (`Decimal` through `float`; `_fail_already_registered = False` … `del`) -/
+theorem C20_src_module_registrations_tie : Jap.Gen.TypingSrc.moduleRegistrations = [
+  "_operators1 = {operator.gt: '>', operator.ge: '>=', operator.lt: '<', operator.le: '<=', operator.eq: '==', operator.ne: '!='}",
+  "_operators2 = {v: k for k, v in _operators1.items()}",
+  "registered_types = {}",
+  "registered_type_handlers = {}",
+  "registration_pending = {}",
+  "_fail_already_registered = False",
+  "PositiveInt = restricted_number_type('PositiveInt', int, ('>', 0))",
+  "NonNegativeInt = restricted_number_type('NonNegativeInt', int, ('>=', 0))",
+  "PositiveFloat = restricted_number_type('PositiveFloat', float, ('>', 0))",
+  "NonNegativeFloat = restricted_number_type('NonNegativeFloat', float, ('>=', 0))",
+  "ClosedUnitInterval = restricted_number_type('ClosedUnitInterval', float, [('>=', 0), ('<=', 1)])",
+  "OpenUnitInterval = restricted_number_type('OpenUnitInterval', float, [('>', 0), ('<', 1)])",
+  "NotEmptyStr = restricted_string_type('NotEmptyStr', '^.*[^ ].*$')",
+  "Email = restricted_string_type('Email', '^[^@ ]+@[^@ ]+\\\\.[^@ ]+$')",
+  "Path_fr = path_type('fr')",
+  "Path_fc = path_type('fc')",
+  "Path_dw = path_type('dw')",
+  "Path_dc = path_type('dc')",
+  "Path_drw = path_type('drw')",
+  "register_type(os.PathLike, str, str)",
+  "register_type(complex)",
+  "register_type_on_first_use('decimal.Decimal', float)",
+  "register_type_on_first_use('uuid.UUID')",
+  "for _path in [pathlib.Path, pathlib.PosixPath, pathlib.WindowsPath]:",
+  "  register_type(_path, str, _path, type_check=isinstance)",
+  "register_type_on_first_use('datetime.timedelta', deserializer=timedelta_deserializer)",
+  "register_type_on_first_use('builtins.bytes', serializer=bytes_serializer, deserializer=bytes_deserializer)",
+  "register_type_on_first_use('builtins.bytearray', serializer=bytes_serializer, deserializer=bytearray_deserializer)",
+  "re_range_stop = re.compile('^(-?\\\\d+)$')",
+  "re_range_start_stop = re.compile('^(-?\\\\d+),(-?\\\\d+)$')",
+  "re_range_start_stop_step = re.compile('^(-?\\\\d+),(-?\\\\d+),(-?\\\\d+)$')",
+  "register_type(range, serializer=range_serializer, deserializer=range_deserializer)",
+  "register_type(SecretStr)",
+  "register_type_on_first_use('pydantic.SecretStr')",
+  "del _fail_already_registered"] := rfl
+
+/-- the registered-type branch of `adapt_typehints` as transcribed by `adaptReg` -/
+theorem C20_src_adapt_registered_branch_tie : Jap.Gen.TypingSrc.adaptRegisteredBranch = [
+  "elif get_registered_type(typehint):",
+  "  registered_type = get_registered_type(typehint)",
+  "  if serialize:",
+  "    val = registered_type.serializer(val)",
+  "  else:",
+  "    if not serialize and (not registered_type.is_value_of_type(val)):",
+  "      val = registered_type.deserializer(val)"] := rfl
 
 end Jap.Props.C20
